@@ -19,7 +19,7 @@ RULE = ('seeded generator: field shapes 1..7 per side (even/odd/non-square/one-e
 ASSUMPTIONS = ['one-element fields are infinite constants only in products (DESIGN.md C06 domain decision)',
                'scalar x scalar with different offsets is excluded (documented lentil rule, unreachable via Plane/Wavefront)']
 PLAN = {'quick': {'gen': 8}, 'thorough': {'gen': 16, 'tests': 1, 'docs': 1}}
-REQUIRED_BUCKETS = ['insert:constant', 'merge:constants', 'mul:array*array', 'mul:array*scalar', 'mul:scalar*scalar', 'mul:disjoint',
+REQUIRED_BUCKETS = ['empty-field', 'insert:constant', 'merge:constants', 'mul:array*array', 'mul:array*scalar', 'mul:scalar*scalar', 'mul:disjoint',
                     'insert:inside', 'insert:clipped', 'insert:outside', 'insert:intensity',
                     'reduce:n>=3', 'boundary:negative-only', 'extent:queries']
 REQUIRED_ANCHORS = ['probe:Field.__mul__', 'probe:insert', 'probe:_merge', 'probe:reduce', 'probe:boundary',
@@ -64,7 +64,8 @@ def mul_oracle(ctx, args, kwargs, result, exc, pre):
                   f'Field product raised {type(exc).__name__}: {exc}', wit)
         return
     if a.data.size == 0 or b.data.size == 0:
-        ctx.skip('mul: empty operand')
+        # an empty field is the zero plane: so is its product with anything
+        ctx.check(result.data.size == 0, 'mul=canvas', 'mul|empty-operand', 'the product with an empty field is not empty', wit)
         return
     sa, sb = _is_scalar(a), _is_scalar(b)
     if sa and sb:
@@ -440,6 +441,51 @@ def workload(ctx, lentil):
             if not ov:
                 ctx.expect_raises('merge=canvas', (ValueError,), lambda: F.merge(a, b),
                                   'merge|enforce', 'merge(enforce_overlap=True) accepted disjoint fields')
+
+    # ---- the empty field (product of two fields with nothing in common) is the zero plane, and a field like any other:
+    # it multiplies to empty, inserts nothing, and drops out of merges / reductions
+    for i in range(max(6, n // 20)):
+        sa, sb, sc_ = _rshape(rng, 1), _rshape(rng, 1), _rshape(rng, 1)
+        a = Field(_rdata(rng, sa), offset=[0, 0])
+        b = Field(_rdata(rng, sb), offset=[20 + int(rng.integers(0, 5)), -20])
+        c = Field(_rdata(rng, sc_), offset=roff(4))
+        ctx.case({'op': 'empty-field', 'a': list(sa), 'b': list(sb), 'c': list(sc_)}, ['empty-field'])
+        try:
+            e = a * b                                   # probe decides
+            if e.data.size != 0:
+                continue
+            for t in (lambda: e * c, lambda: c * e, lambda: e * e, lambda: e * Field(np.array(2.0 + 0j))):
+                try:
+                    t()                                 # probe decides (raises are reported by it)
+                except Exception:
+                    pass
+            out = _rdata(rng, (5, 6))
+            out0 = out.copy()
+            try:
+                r = F.insert(e, out)
+                ctx.check(np.array_equal(r, out0), 'insert=canvas', 'insert|empty-field', 'inserting an empty field changed the target', {})
+            except Exception as ex:
+                ctx.check(False, 'insert=canvas', f'insert|empty-field|raises={type(ex).__name__}', str(ex), {})
+            try:
+                red = F.reduce([e, c]) if i % 2 else F.reduce([c, e, a])
+                want = [c] if i % 2 else [c, a]
+                bb = rm.bbox_of([(f.data.shape, f.offset) for f in want])
+                tot = rm.dense([(f.data, f.offset) for f in want], bb)
+                got = rm.dense([(f.data, f.offset) for f in red if f.data.size], bb)
+                ctx.check(np.allclose(got, tot, rtol=1e-13, atol=1e-13), 'reduce=canvas', 'reduce|empty-field',
+                          'an empty field changed the total of a reduction', {})
+            except Exception as ex:
+                ctx.check(False, 'reduce=canvas', f'reduce|empty-field|raises={type(ex).__name__}', str(ex), {})
+            try:
+                m = F.merge(e, c, enforce_overlap=False)
+                bb = rm.bbox_of([(c.data.shape, c.offset)])
+                ctx.check(np.allclose(rm.dense([(m.data, m.offset)], bb), rm.dense([(c.data, c.offset)], bb), rtol=1e-13, atol=1e-13)
+                          and tuple(int(x) for x in m.extent) == bb, 'merge=canvas', 'merge|empty-field',
+                          'merging an empty field with a field does not give that field', {})
+            except Exception as ex:
+                ctx.check(False, 'merge=canvas', f'merge|empty-field|raises={type(ex).__name__}', str(ex), {})
+        except Exception:
+            pass
 
     # ---- collections of constants (0-d fields): their merge / reduction is the constant that is their sum --------------
     for i in range(max(6, n // 20)):
